@@ -43,6 +43,8 @@ def tasks(tier, seed):
 def extra(led, tier, seed):
     from contracts import sparse_sel, prox_native
     led.extend(prox_native.unordered_groups(seed))
+    led.extend(sparse_sel.selection_frame())
+    led.extend(sparse_sel.native_selection_histories(seed))
     led.extend(sparse_sel.update_weights_flow())
     led.extend(sparse_sel.fit_groups_flow())
     led.extend(sparse_sel.check_groups_exhaustive(4 if tier == "thorough" else 3))
